@@ -109,7 +109,9 @@ PAGES = {"pages/index.md": "---\ntitle: Notes\nordered_subpage: sub\n---\n\nSee 
 def evaluate(case):
     shape, opts = case["shape"], case["opts"]
     files = render(shape)
-    meta = {"incl_src": shape["incl_src"], "max_frontpage_items": 10 if shape["front_items"] else 0}
+    meta = {"incl_src": shape["incl_src"], "max_frontpage_items": 10 if shape["front_items"] else 0,
+            # texts of the project file that are shown on the front page carry references too
+            "summary": "Summary with a link to [[mo0]].", "author": "A. Author", "author_description": "Wrote [[pr0]]."}
     if shape["extra"]:
         meta["extra_filetypes"] = "sh #"
     meta.update({k: v for k, v in opts.items() if not k.startswith("_")})
